@@ -252,6 +252,17 @@ def run(ctx):
                 cases.append(('jigg', f'jigg {1 if lang == "ja" else 0} {enc_batch}', 'ok ' + X.canon(etree.fromstring(out.encode('utf-8'))), desc))
             if out is None:
                 continue
+            if f == 'conll' and all('\t' not in v and '\n' not in v for _, t in flat for tok in t.tokens for v in tok.values()):
+                # the Lean reader of the table (theorem conll_decode) applied to the REAL text: ids, words in escaped
+                # spelling, lemma / pos with `_` as default, heads from the head flags, leaf categories
+                recs_c = D.split_records(out, conll=True)
+                if len(recs_c) == len(flat):
+                    for (_, body), (_, t) in zip(recs_c, flat):
+                        hs = conll_heads(t)
+                        rows = ''.join(f' || {i + 1} {enc_str(esc(tok["word"]))} {enc_str(tok.get("lemma", "_"))} {enc_str(tok.get("pos", "_"))} '
+                                       f'{enc_str(tok.get("pos", "_"))} {hs[i]} {enc_str(str(leaf.cat))}'
+                                       for i, (tok, leaf) in enumerate(zip(t.tokens, t.leaves)))
+                        cases.append(('conll_dec', 'conll_dec ' + enc_str(body), f'ok {len(t.tokens)}' + rows, desc))
             if f == 'prolog' and prolog_guard(lang, [t for _, t in flat]):
                 try:
                     want_p = f'ok {len(flat)}' + ''.join(f' || {n} ' + (pview_en(t) if lang == 'en' else pview_ja(t)) for n, t in flat)
